@@ -209,12 +209,16 @@ def r3_sq_wake(r, facts):
     if adds:
         from .kernel import result_edges
         al, at = adds[0]
-        re_ = result_edges(f, at)
-        if r.require(re_ is not None and re_[0] and re_[1], 'Submissions::wake/add-result', 'how the result of add is handled was not recognised (neither a match nor `?`)', f.where(al)):
-            ok_e, err_e = re_
-            hit = f.forward_paths_hit([Loc(err_e[1], 0)], f.returns(), blockers=[al])
+        # decided on paths, whatever the spelling (match, `?`, is_ok(), a `queued` flag): starting behind an add
+        # that returned Err(QueueFull), no successful return of wake() is reachable without another add
+        oks = [loc for loc, s_ in f.assigns() if s_['lhs']['l'] == 0 and not s_['lhs']['p'] and s_['rv']['k'] == 'agg' and s_['rv'].get('variant') == 'Ok']
+        r.require(bool(oks), 'Submissions::wake/ok-return', 'Ok return of wake not found', f.where())
+        if at['target'] is not None and not at['dest']['p'] and at['dest']['l'] in f._frozen_enums():
+            hit = f.forward_paths_hit([Loc(at['target'], 0)], oks, blockers=[al], env0={('D', at['dest']['l']): 1})
             r.inst('QueueFull => retry', f.where(al))
             r.require(hit is None, 'Submissions::wake/full-gives-up', 'when the submission queue is full wake() returns without having queued the wake message (the polling thread is already marked awoken, so later wakes are skipped too: the wake-up is lost)', f.where(hit[0]) if hit else f.where(al))
+        else:
+            r.bad('Submissions::wake/add-result', 'how the result of add is handled was not recognised (its discriminant cannot be tracked)', f.where(al))
         hit = f.forward_paths_hit([Loc(at['target'], 0)], f.returns(), blockers=[l for l, _ in enters])
         r.require(hit is None, 'Submissions::wake/not-flushed', 'a path from add to return skips Shared::enter: the message stays in the queue until somebody else submits', f.where(al))
     # single issuer edge
